@@ -41,6 +41,13 @@ func bulkKinds() []bulkKind {
 				_, err := c.CreateTransaction(ctx, p, postingsScript("world", "bank", 10))
 				return err
 			}},
+		{"create-with-meta-ref", "CREATE_TRANSACTION", `{"postings":[{"source":"world","destination":"shop","amount":3,"asset":"USD"}],"metadata":{"campaign":"x"},"reference":"ref-a","timestamp":"2023-01-01T00:00:00Z"}`,
+			func(ctx context.Context, c *command.Commander, p command.Parameters) error {
+				ts, _ := ledger.ParseTime("2023-01-01T00:00:00Z")
+				rs := ledger.TxToScriptData(ledger.TransactionData{Postings: ledger.Postings{ledger.NewPosting("world", "shop", "USD", big.NewInt(3))}, Metadata: metadata.Metadata{"campaign": "x"}, Reference: "ref-a", Timestamp: ts}, false)
+				_, err := c.CreateTransaction(ctx, p, rs)
+				return err
+			}},
 		{"create-insufficient", "CREATE_TRANSACTION", `{"postings":[{"source":"poor","destination":"bank","amount":10,"asset":"USD"}]}`,
 			func(ctx context.Context, c *command.Commander, p command.Parameters) error {
 				_, err := c.CreateTransaction(ctx, p, postingsScript("poor", "bank", 10))
@@ -71,6 +78,8 @@ func bulkKinds() []bulkKind {
 		{"unknown-action", "FROBNICATE", `{}`, nil},
 		{"malformed-create", "CREATE_TRANSACTION", `{"postings":"nope"}`, nil},
 		{"malformed-revert", "REVERT_TRANSACTION", `"x"`, nil},
+		{"add-metadata-bad-target", "ADD_METADATA", `{"targetType":"TRANSACTION","targetId":"abc","metadata":{"k":"v"}}`, nil},
+		{"delete-metadata-bad-target", "DELETE_METADATA", `{"targetType":"TRANSACTION","targetId":{"x":1},"key":"k"}`, nil},
 	}
 }
 
@@ -109,7 +118,7 @@ func c18() int {
 	evid.ParallelFor(len(seqs), workers(), func(w, si int) {
 		seq := seqs[si]
 		for _, cof := range []bool{false, true} {
-			for _, ikMode := range []string{"none", "distinct", "same-kind-dup"} {
+			for _, ikMode := range []string{"none", "distinct", "same-kind-dup", "even-only", "odd-only"} {
 				for _, entry := range []string{"ProcessBulk", "HTTP"} {
 					name := func() string {
 						var n []string
@@ -125,6 +134,14 @@ func c18() int {
 							iks[i] = fmt.Sprintf("ik-%d", i)
 						case "same-kind-dup":
 							iks[i] = "ik-" + kinds[k].Name // equal kinds share a key: the later one is a replay
+						case "even-only":
+							if i%2 == 0 {
+								iks[i] = fmt.Sprintf("ik-%d", i)
+							}
+						case "odd-only":
+							if i%2 == 1 {
+								iks[i] = fmt.Sprintf("ik-%d", i)
+							}
 						}
 					}
 					// twin: the intended operations, one by one, on an identically seeded engine.
@@ -138,6 +155,7 @@ func c18() int {
 						processed  int // elements that were looked at
 						results    int // results owed
 						calls      []string
+						digest     string
 					}
 					var exps []expectation
 					for _, mode := range []string{"A", "B", "B'"} {
@@ -162,6 +180,7 @@ func c18() int {
 								break
 							}
 						}
+						e.digest, _ = storeDigest(twin.Store)
 						twin.Stop()
 						exps = append(exps, e)
 					}
@@ -209,6 +228,7 @@ func c18() int {
 							results = resp.Data
 						}
 					}()
+					implDigest, _ := storeDigest(eng.Store)
 					eng.Stop()
 					atomic.AddInt64(&evals, 1)
 					if anyFail {
@@ -265,6 +285,9 @@ func c18() int {
 						}
 						if failedFlag != fail {
 							return "failure-signal", fmt.Sprintf("response signals failure=%v but some processed element failed=%v", failedFlag, fail)
+						}
+						if implDigest != e.digest {
+							return "effects", "the ledger does not hold what executing the processed elements one by one produces:\n" + implDigest + "--- expected ---\n" + e.digest
 						}
 						return "", ""
 					}
